@@ -6,7 +6,7 @@
     commutative ring (MathComp [comRingType]), [ROps R ...] = the model's operations instantiated with
     the ring operations, the uninterpreted ones (division, sqrt, fabs, <) arbitrary. *)
 From mathcomp Require Import all_ssreflect all_algebra.
-From LP Require Import Num C04_Model C04_State C04_Life C04_Proofs_Struct C04_Proofs_Laws C04_Proofs_Block C04_Proofs_State C04_Proofs_Life C04_Proofs_Hist C04_Proofs_Alg C04_Amb C04_Proofs_Amb C04_Proofs_Made.
+From LP Require Import Num C04_Model C04_State C04_Life C04_Proofs_Struct C04_Proofs_Laws C04_Proofs_Block C04_Proofs_State C04_Proofs_Life C04_Proofs_Hist C04_Proofs_Alg C04_Amb C04_Proofs_Amb C04_Proofs_Made C04_Print C04_Proofs_Print.
 Import GRing.Theory.
 Local Open Scope ring_scope.
 
@@ -439,6 +439,24 @@ Theorem C04_return_row_size (C : mat T) (i : nat) (w : vec T) : wf_mat C -> retu
   vdim w = mcols C /\ wf_vec w /\ vcomps w = nth [::] (mcomps C) i.
 Proof. exact (@return_row_size T C i w). Qed.
 Print Assumptions C04_return_row_size.
+(** "all public Vector and Matrix members and free operators" (observe_at): the stream insertion operators
+    (model coq/C04_Print.v: the list of items `output << ...` inserts, [PNum x] = a number, the others the fixed
+    strings of the source).  operator<<(ostream, Vector) on an object that satisfies the class invariant never exits or
+    reads outside the storage and inserts exactly  "(" e_0 " , " e_1 " , " ... e_{n-1} ")"  - every component
+    once, in order, for every dimension (n = 0: "()"). *)
+Theorem C04_print_vector (v : vec T) : wf_vec v ->
+  v_print v = Ok (PLP :: List.app (commas (vcomps v)) (PRP :: nil)) /\
+  nums (PLP :: List.app (commas (vcomps v)) (PRP :: nil)) = vcomps v.
+Proof. exact (@v_print_spec T Ops v). Qed.
+Print Assumptions C04_print_vector.
+(** operator<<(ostream, Matrix) on an object that satisfies the invariant (any shape, zero sizes included) never exits
+    or reads outside the storage; the numbers it inserts are the stored entries in row-major order, each once,
+    and it inserts Rows()-1 line ends; the printout is the concatenation of the rounds [m_round] of the outer loop. *)
+Theorem C04_print_matrix (M : mat T) : wf_mat M ->
+  m_print M = Ok (List.flat_map (m_round Ops M) (List.seq 0 (mrows M))) /\
+  exists l, m_print M = Ok l /\ nums l = List.concat (mcomps M) /\ newlines l = (mrows M - 1)%coq_nat.
+Proof. exact (fun H => conj (@m_print_rounds T Ops M H) (@m_print_nums T Ops M H)). Qed.
+Print Assumptions C04_print_matrix.
 End AnyNumberType.
 
 (** Non-vacuity of the laws assumed above: the natural numbers satisfy them; a 2x3 * 3x2 instance,
@@ -461,6 +479,17 @@ Theorem C04_examples_returned_objects :
                       made NOps C /\ return_row C 0 = Ok w /\ vdim w = 1%N].
 Proof. exact made_instance. Qed.
 Print Assumptions C04_examples_returned_objects.
+
+(** non-vacuity of the printing theorems: a 3-vector, a 2x2 and a 3x1 matrix over nat, item for item; objects that break
+    the invariant (storage shorter than the shape members say) are answered OOB by the model *)
+Theorem C04_examples_print :
+  v_print (mkVec 3 [:: 1; 2; 3]%N) = Ok [:: PLP; PNum 1; PCM; PNum 2; PCM; PNum 3; PRP]%N /\
+  m_print (mkMat 2 2 [:: [:: 1; 2]; [:: 3; 4]]%N) = Ok [:: PLC; PNum 1; PTAB; PNum 2; PRC; PNL; PLF; PNum 3; PTAB; PNum 4; PRF]%N /\
+  m_print (mkMat 3 1 [:: [:: 1]; [:: 2]; [:: 3]]%N) = Ok [:: PLC; PNum 1; PRC; PNL; PBAR; PNum 2; PBAR; PNL; PLF; PNum 3; PRF]%N /\
+  wf_mat (mkMat 2 2 [:: [:: 1; 2]; [:: 3; 4]]%N) = true /\ wf_vec (mkVec 3 [:: 1; 2; 3]%N) = true /\
+  v_print (mkVec 3 [:: 1; 2]%N) = OOB /\ m_print (mkMat 2 2 [:: [:: 1; 2]; [:: 3]]%N) = OOB.
+Proof. exact print_instance. Qed.
+Print Assumptions C04_examples_print.
 
 Section CommutativeRing.
 Variable R : comRingType.
